@@ -60,7 +60,7 @@ Lemma wit_end :
   /\ PegMemo.not_aborted (run wit_g wit_cfg (orc_of wit_tbl) false 50 wit_input)
   /\ exists r p e vals,
        run wit_g wit_cfg (orc_of wit_tbl) true 50 wit_input = Parsed r
-       /\ MultEndProofs.obj_tree_okb wit_mm (first_tree r) = true
+       /\ Build.asg_placed wit_mm false (first_tree r) = true
        /\ Build.build wit_g wit_mm wit_input wit_grp true false r = Build.BOk (Build.VObj [77;111;100;101;108]%N p e vals)
        /\ Build.get_val [97]%N vals
           = Some (Build.VList [Build.VTerm [73;78;84]%N [49]%N; Build.VTerm [73;78;84]%N [50]%N; Build.VTerm [73;78;84]%N [51]%N])
